@@ -8,18 +8,23 @@ STREAMS = {
     'window': dict(pkg='./cmd/window'),
     'detector': dict(pkg='./cmd/detector', overlay={'motion/zz_verif_motion.go': 'motion/zz_verif_motion.go'}),
     'fs': dict(daemon='./cmd/thermal-recorder', strace=True, confirm=True,
-               overlay={'cmd/thermal-recorder/zz_verif_main.go': 'thermal-recorder/zz_verif_main.go',
+               overlay={'cmd/thermal-recorder/zz_verif_zz_main.go': 'thermal-recorder/zz_verif_main.go',
                         'cmd/thermal-recorder/zz_verif_fs.go': 'thermal-recorder/zz_verif_fs.go',
                         'cmd/thermal-recorder/zz_verif_e2e.go': 'thermal-recorder/zz_verif_e2e.go'}),
     'e2e': dict(daemon='./cmd/thermal-recorder', confirm=True,
-                overlay={'cmd/thermal-recorder/zz_verif_main.go': 'thermal-recorder/zz_verif_main.go',
+                overlay={'cmd/thermal-recorder/zz_verif_zz_main.go': 'thermal-recorder/zz_verif_main.go',
                          'cmd/thermal-recorder/zz_verif_fs.go': 'thermal-recorder/zz_verif_fs.go',
                          'cmd/thermal-recorder/zz_verif_e2e.go': 'thermal-recorder/zz_verif_e2e.go'}),
     'conc': dict(daemon='./cmd/thermal-recorder', race=True,
-                 overlay={'cmd/thermal-recorder/zz_verif_main.go': 'thermal-recorder/zz_verif_main.go',
+                 overlay={'cmd/thermal-recorder/zz_verif_zz_main.go': 'thermal-recorder/zz_verif_main.go',
                           'cmd/thermal-recorder/zz_verif_fs.go': 'thermal-recorder/zz_verif_fs.go',
                           'cmd/thermal-recorder/zz_verif_e2e.go': 'thermal-recorder/zz_verif_e2e.go',
                           'cmd/thermal-recorder/zz_verif_conc.go': 'thermal-recorder/zz_verif_conc.go'}),
+    'parse': dict(daemon='./cmd/thermal-recorder',
+                  overlay={'cmd/thermal-recorder/zz_verif_zz_main.go': 'thermal-recorder/zz_verif_main.go',
+                          'cmd/thermal-recorder/zz_verif_fs.go': 'thermal-recorder/zz_verif_fs.go',
+                          'cmd/thermal-recorder/zz_verif_e2e.go': 'thermal-recorder/zz_verif_e2e.go',
+                          'cmd/thermal-recorder/zz_verif_parse.go': 'thermal-recorder/zz_verif_parse.go'}),
     'writer': dict(daemon='./cmd/thermal-writer', confirm=True, overlay={'cmd/thermal-writer/zz_verif_writer.go': 'thermal-writer/zz_verif_writer.go'}),
     'loglimiter': dict(pkg='./cmd/loglimiter', overlay={'loglimiter/zz_verif_loglimiter.go': 'loglimiter/zz_verif_loglimiter.go'}),
 }
@@ -105,13 +110,13 @@ PROPS = {
         assumptions=PROC_ASSUME['C12'],
     ),
     'C13': dict(
-        lean=['Props.C13', 'Props.C13Parse', 'Props.FactsProc'],
-        streams=['processor', 'e2e'],
+        lean=['Props.C13', 'Props.C13Parse', 'Props.FactsProc', 'Props.Pipeline'],
+        streams=['processor', 'e2e', 'parse'],
         rule=PROC_RULE, trusted=PROC_TRUSTED,
         assumptions=PROC_ASSUME['C13'],
     ),
     'C17': dict(
-        lean=['Props.C17', 'Props.FactsProc'],
+        lean=['Props.C17', 'Props.FactsProc', 'Props.Pipeline'],
         streams=['processor', 'e2e'],
         project={'processor': r'^< (c\.|t\.|ret|panic)'}, rule=PROC_RULE, trusted=PROC_TRUSTED,
         assumptions=PROC_ASSUME['C17'],
@@ -143,7 +148,7 @@ PROPS = {
         assumptions=['same event skeleton in both histories', 'dynamic threshold: no reset before/inside the FFC period (KNOWN-FINDING F7 otherwise)'],
     ),
     'C15': dict(
-        lean=['Props.C15', 'Props.FactsProc'],
+        lean=['Props.C15', 'Props.FactsProc', 'Props.Pipeline'],
         streams=['detector', 'e2e'],
         rule=DET_RULE, trusted=DET_TRUSTED,
         assumptions=['LowerLaw: new < bg -> float32(new) - w < float32(bg), true for the non-negative weights that occur', 'the float64 mean is within one count of the exact mean (validated by the monitor, not proved)', 'the clause "background and threshold stored with a recording are those at the trigger" is covered by the e2e stream'],
@@ -160,14 +165,14 @@ PROPS = {
         assumptions=['time stamps of recordings in one directory are pairwise distinct (enforced by the F9 fix)', 'constant-recordings/ is not the output directory proper'],
     ),
     'C14': dict(
-        lean=['Props.C14', 'Props.FactsWiring'],
+        lean=['Props.C14', 'Props.FactsWiring', 'Props.Pipeline'],
         streams=['e2e'],
         rule=E2E_RULE,
         trusted=E2E_TRUSTED + ['yaml.v1 (camera header): the model uses a decoder for the image of the encoder on flat maps, validated against the real decoder'],
         assumptions=['frames do not begin with the bytes "clear" (indistinguishable from the marker in the wire format itself)', 'frame size >= 5'],
     ),
     'C11': dict(
-        lean=['Props.C11', 'Props.FactsWiring', 'Props.FactsProc'],
+        lean=['Props.C11', 'Props.FactsWiring', 'Props.FactsProc', 'Props.Pipeline'],
         streams=['e2e'],
         rule=E2E_RULE,
         trusted=E2E_TRUSTED + ['go-cptv compression + gzip: validated by decoding every produced file with the standard reader, not proved'],
